@@ -1849,7 +1849,21 @@ std::optional<ChunkData> Node::fetch_chunk(const ChunkId& chunk_id) {
 
             const crypto::Nonce nonce{record->nonce};
             const std::span<const std::uint8_t> ciphertext{record->data};
-            return crypto::CryptoManager::decrypt_with_key(chunk_key, chunk_id, ciphertext, nonce);
+            auto plaintext = crypto::CryptoManager::decrypt_with_key(chunk_key, chunk_id, ciphertext, nonce);
+            if (!plaintext.has_value()) {
+                return std::nullopt;
+            }
+
+            // The key shares and the cached manifest can be replaced by a later manifest for the
+            // same chunk id (ingest, announce, request) while the stored ciphertext stays the old
+            // one. Never hand out bytes that are not the content the cached manifest describes.
+            if (const auto manifest_opt = manifest_for_chunk(chunk_id)) {
+                const auto digest = crypto::Sha256::digest(std::span<const std::uint8_t>(*plaintext));
+                if (digest != manifest_opt->chunk_hash) {
+                    return std::nullopt;
+                }
+            }
+            return plaintext;
         }
         return record->data;
     }
